@@ -160,6 +160,7 @@ class C10(Check):
                         if mode == 'group' and (idx // nshards) % 3:
                             continue            # group mode on a third of the box (it runs 2-3 sequences at once)
                         yield {'op': node, 'mode': mode, 'seq': list(seq), 'gseed': idx}
+        self.box_done = 1
 
     def _random(self, rng, tier):
         k = 8000 if tier == 'quick' else 30000
@@ -239,6 +240,11 @@ class C10(Check):
                 out.fail('differs-from-list-definition', op=node, mode=mode, group=g, seq=gi, want=want, got=got[g], items=items)
                 return out
         return out
+
+    box_done = 0
+
+    def extra_evidence(self):
+        return {'shards_that_enumerated_their_part_of_the_box_completely': self.box_done}
 
     def shrink(self, case):
         seq = case['seq']
